@@ -25,6 +25,37 @@ class WebServerHandle:
         return f"web[{self.bind or '0.0.0.0'}:{self.port}]"
 
 
+async def _call_on_klongloop(klongloop, fn, parameters):
+    """
+
+    Run a route handler on the klong loop and wait for its result without blocking the io loop.
+
+    The interpreter is not thread-safe: timers, REPL input, IPC requests and websocket messages are all
+    evaluated on the klong loop.  A handler evaluated on the io loop (where the web server runs) would share
+    the interpreter's context stack with whatever the klong loop is evaluating at that moment.
+
+    """
+    ioloop = asyncio.get_running_loop()
+    if klongloop is None or klongloop is ioloop:
+        return fn(parameters)
+    future = ioloop.create_future()
+
+    def settle(setter, value):
+        if not future.done():
+            setter(value)
+
+    def run():
+        try:
+            result = fn(parameters)
+        except Exception as e:
+            ioloop.call_soon_threadsafe(settle, future.set_exception, e)
+        else:
+            ioloop.call_soon_threadsafe(settle, future.set_result, result)
+
+    klongloop.call_soon_threadsafe(run)
+    return await future
+
+
 def eval_sys_fn_create_web_server(klong, x, y, z):
     """
 
@@ -59,6 +90,9 @@ def eval_sys_fn_create_web_server(klong, x, y, z):
 
     """
     app = web.Application()
+    # looked up here, on the thread that evaluates .web: the request handlers run on the io loop and must not
+    # touch the interpreter themselves
+    klongloop = klong['.system'].get('klongloop')
 
     logging.info("web server start @ ", x)
     logging.info("GET: ", y)
@@ -79,7 +113,7 @@ def eval_sys_fn_create_web_server(klong, x, y, z):
         async def _get(request: web.Request, fn=fn_wrapped, route=route):
             try:
                 assert request.method == "GET"
-                return web.Response(text=str(fn(dict(request.rel_url.query))))
+                return web.Response(text=str(await _call_on_klongloop(klongloop, fn, dict(request.rel_url.query))))
             except Exception as e:
                 logging.info(f"failed web request: {route} with error {e}")
                 return web.Response(text="Invalid request", status=400)
@@ -104,7 +138,7 @@ def eval_sys_fn_create_web_server(klong, x, y, z):
             try:
                 assert request.method == "POST"
                 parameters = dict(await request.post())
-                return web.Response(text=str(fn(parameters)))
+                return web.Response(text=str(await _call_on_klongloop(klongloop, fn, parameters)))
             except Exception as e:
                 logging.error(e)
                 return web.Response(text="Invalid request", status=400)
